@@ -208,7 +208,7 @@ class RunLab(object):
                 state.in_user_code += 1
                 try:
                     if name == "before_scenario":
-                        state.ran_objects[(elem.name, elem.line)] = elem
+                        state.ran_objects[(getattr(elem, "filename", None), elem.name, elem.line)] = elem
                     if state.user_skip and name in ("before_feature", "before_rule") and getattr(elem, "name", None) in state.user_skip:
                         elem.skip(reason="skipped by environment.py")
                     for plug in state.hook_plugins:
@@ -370,7 +370,7 @@ class RunLab(object):
         st.replaced_after_run = []
 
         def scen(s):
-            ran = st.ran_objects.get((s.name, s.line))
+            ran = st.ran_objects.get((getattr(s, "filename", None), s.name, s.line))
             if ran is not None and ran is not s:
                 # the scenario object found in the model after the run is not the object that was executed (rows rebuilt?)
                 st.replaced_after_run.append((s.name, s.line))
